@@ -182,13 +182,26 @@ def run_app(sc):
         try:
             cbs = {n: make_cb(n, 0) for n in ("on_open", "on_reconnect", "on_message", "on_data", "on_error", "on_close",
                                               "on_ping", "on_pong", "on_cont_message")}
-            app = websocket.WebSocketApp(f"{sc.get('scheme', 'ws')}://sim.test/app", **{k: v for k, v in cbs.items() if v})
+            extra = {}
+            if sc.get("prepared"):
+                # the caller hands over an already connected (for wss: already TLS-wrapped) socket through the socket= option
+                spec0 = pending.pop(0)
+                attempts_at.append(w.now)
+                ps = VSock(w, [(e[0], e[1]) + ((bytes.fromhex(e[2]),) if len(e) > 2 else ()) for e in spec0.get("events", [])],
+                           tls_pending=bool(spec0.get("tls")), pong_latency=spec0.get("pong_latency"))
+                ps.spec = spec0
+                socks.append(ps)
+                extra["socket"] = ps
+            app = websocket.WebSocketApp(f"{sc.get('scheme', 'ws')}://sim.test/app", **{k: v for k, v in cbs.items() if v}, **extra)
             ext = ExternalLoop(w) if sc.get("custom_dispatcher") else None
 
             def main():
                 for _ in range(sc.get("runs", 1)):
                     try:
                         args = dict(sc.get("args", {}))
+                        if sc.get("reconnect_via_setter") and "reconnect" in args:
+                            # the documented module-level default instead of the argument
+                            websocket.setReconnect(args.pop("reconnect"))
                         if ext is not None:
                             args["dispatcher"] = ext
                         r = app.run_forever(**args)
@@ -214,6 +227,8 @@ def run_app(sc):
         finally:
             _http.socket = saved_sock_mod
             _http._ssl_socket = saved_ssl
+            if sc.get("reconnect_via_setter"):
+                websocket.setReconnect(0)
     result["trace"] = trace
     result["attempts"] = [round(t, 6) for t in attempts_at]
     result["sockets"] = [{"closed": s.closed, "frames": [(op, fin, p.hex()) for op, fin, p in unmask_client_frames(bytes(s.written))],
